@@ -2,6 +2,7 @@ package props
 
 import (
 	"fmt"
+	"strings"
 
 	"gkvverif/harness"
 )
@@ -80,6 +81,18 @@ func c14Profiles(tier string) []Profile {
 	conc = append(conc, Profile{Name: "after-failed-flush", Exec: OnlyOracles(c07ExecMon(1, 1, false, harness.Monitors{Format: true}), "format", "durable", "observe"),
 		Budget: map[int]int{1: 0, 2: 0, 3: 1}, ShardLevel: 3,
 		Rule: "the file produced by a Flush that follows a failed one (one failing file call at every index, torn writes, retried or not): the independent decoder must accept it and reconstruct the flushed state"})
+	hf := *hist
+	hf.Name, hf.Depth, hf.CBMask = "flushes-framed", d-2, harness.CBFramed
+	hf.Letters = func(w *harness.World) []Letter {
+		var ls []Letter
+		for _, l := range hist.Letters(w) {
+			if !strings.HasPrefix(l.Name, "CopyTo") { // CopyTo's destination store has default callbacks: a plain copy
+				ls = append(ls, l)
+			}
+		}
+		return ls
+	}
+	conc = append(conc, hf.Profile(fmt.Sprintf("the flushes profile (histories of length <= %d) with a BeforeItemWrite / AfterItemRead pair that stores every value with a two-byte trailer: every item record must be exactly what BeforeItemWrite returned (the decoder verifies and strips the trailer), lengths in item and node records must describe the stored form, and the appended region must be tiled by the records", d-2)))
 	return append(conc, []Profile{
 		hist.Profile(fmt.Sprintf("every history of length <= %d over the C02 store alphabet plus CopyTo(flushEvery 1,2); after every Flush and for every CopyTo destination an independent decoder of the documented v4 layout (shares no code with gkvlite) must accept every record, find children below their parents, recompute every persisted aggregate, reconstruct exactly the model's flushed state, and the bytes appended by the Flush must be tiled exactly by the item, node and root records reachable from the new root", d)),
 		sizes.Profile(fmt.Sprintf("every history of length <= %d over collection names {\"x\", \"\", \"a b\", q\"\\, u-umlaut, a name with control characters 0x01 0x7f TAB} (including empty collections), key lengths {1,2,255,256,65535} x value lengths {0,1,255,65536,70000}, Flush, Reopen; same decoder oracle", ds)),
